@@ -517,6 +517,8 @@ def check_model(part, spec: dict, cuts: list, tag: str):
             continue
         if any(brute.free_of_node(n) for n in nodes.values()):
             part.count("ok_with_needed_nested_capture")
+        if any(v.is_initializer() and v.is_graph_input() for v in need.values()):
+            part.count("ok_needs_input_with_default_not_in_boundary")
         # exact node set, original order
         exp_nodes = [obs.nid[id(n)] for n in tnodes if id(n) in nodes]
         if ires["nodes"] != exp_nodes:
@@ -619,7 +621,12 @@ class Gen:
             inits.append(self.newval("f", init=True))
         if not root and not self.evaluable and rng.random() < 0.4:
             inputs.append(self.newval("f"))
-        local = inputs + inits
+        if root or not self.evaluable:
+            # IR<4 layout / input with a default: an initializer that is also a declared graph input
+            for w in inits:
+                if rng.random() < 0.4:
+                    inputs.insert(rng.randrange(len(inputs) + 1), w)
+        local = list(dict.fromkeys(inputs + inits))
         nodes = []
         for k in range(n_nodes):
             pool = outer + local
@@ -728,7 +735,10 @@ def gen_structural(rng: random.Random, n_nodes: int, max_depth: int = 3) -> dict
         cnt["g"] += 1
         inputs = [newval() for _ in range(rng.randrange(0, 3) + (1 if root else 0))]
         inits = [newval(init=True) for _ in range(rng.randrange(0, 3))]
-        local = inputs + inits
+        for w in inits:  # initializer also listed as graph input (main graph and nested graphs)
+            if rng.random() < 0.35:
+                inputs.insert(rng.randrange(len(inputs) + 1), w)
+        local = list(dict.fromkeys(inputs + inits))
         nodes = []
         for _ in range(n):
             pool = outer + local
@@ -856,6 +866,8 @@ def random_cut(rng: random.Random, spec: dict):
         return [], []
     if r < 0.35:
         ins = list(gs["inputs"])
+        if rng.random() < 0.6:
+            ins = [v for v in ins if v not in gs["inits"]]
     elif r < 0.85:
         ins = rng.sample(own, k=min(len(own), rng.randrange(0, 5)))
     else:
